@@ -5,6 +5,15 @@ import os
 VERIF = os.path.dirname(os.path.dirname(os.path.abspath(__file__)))
 
 CHECKS = {
+    "C07": dict(
+        text="Coq theorems about the model of the three random-walk generators for ALL values of the random draws (oracle arguments): every returned state x[i] is the end of a "
+             "walk of exactly y[i] edges from the start state and the output starts with the start state (classic, bfs, nbt with every history depth incl. the default 0); "
+             "classic mode has width*length rows, y = step index and consecutive states joined by an edge; bfs mode returns pairwise distinct states and, wide and long enough, "
+             "exactly all vertices with their true distances. Tie: the model fed the recorded torch.randint/randperm draws reproduces the implementation's (x, y) exactly; "
+             "exact-k reachability oracle; start states as list/ndarray/tensor.",
+        note="Trusted: Coq kernel; model Walks.v; the torch proxy recording draws. nbt theorem assumes a well-formed permutation oracle and >= 1 generator at depth 0.",
+        technique="Coq proof (invariants for all oracle values) + oracle-recorded correspondence",
+        design="7 (C07)"),
     "C06": dict(
         text="Coq theorems about the model of both beam-search modes, for EVERY selection oracle (the recorded unstable argsort), score function, width and budget: success "
              "implies a real walk of exactly the reported length (never below the distance, never for an unreachable target); a returned path replays to the central state with "
